@@ -898,21 +898,23 @@ func churnProp(c churnCase) hx.Verdict {
 		return v
 	}
 	s.serve()
-	var stopped atomic.Bool
+	// stop runs the stop under test once; every caller waits for it and gets its result
+	var stopOnce sync.Once
+	var stopOK bool
 	stop := func() bool {
-		if stopped.Swap(true) {
-			return true
-		}
-		if c.Delete {
-			ch := make(chan struct{})
-			go func() { s.srv.DeletePeer(peer); close(ch) }()
-			select {
-			case <-ch:
-			case <-time.After(15 * time.Second):
-				return false
+		stopOnce.Do(func() {
+			if c.Delete {
+				ch := make(chan struct{})
+				go func() { s.srv.DeletePeer(peer); close(ch) }()
+				select {
+				case <-ch:
+				case <-time.After(15 * time.Second):
+					return
+				}
 			}
-		}
-		return s.closeBounded(15 * time.Second)
+			stopOK = s.closeBounded(15 * time.Second)
+		})
+		return stopOK
 	}
 	// accepted outbound connections are queued here
 	accepted := make(chan net.Conn, 16)
